@@ -1,7 +1,8 @@
 (** C01 -- property theorems only (MAC chain of beaconed segments, assembled paths).  The hop
     MAC is an arbitrary function: the routers recompute the same function, no cryptographic
     hypothesis is needed for these positive results. *)
-From Sci Require Import Gen.NetworkTables Network.Model Network.Spec Network.Proofs Network.Proofs_C01.
+From Sci Require Import Gen.NetworkTables Network.Model Network.Spec Network.Proofs Network.Proofs_C01
+     Network.Proofs_Deliver Network.Proofs_Combined.
 Local Open Scope N_scope.
 
 (** The code that extends a beacon ([SignedPathSegment::add_entry] = [AsEntry::update_macs]
@@ -32,3 +33,62 @@ Theorem chain_invariant :
             (use_keys us u) (combine hs (use_carried u hs)).
 Proof. intros. apply chain_invariant_use; assumption. Qed.
 Print Assumptions chain_invariant.
+
+(** Every path assembled (as [PathSolution::path] + [initialize_segment_id] do) from uses of
+    beaconed segments -- any number of uses, any segment lengths, any shortcut indices, in or
+    against construction direction, every use with at least two hops -- is delivered by the
+    reference router at its destination, for every topology that carries it
+    ([route_topo]: the consecutive interfaces are joined by up links, the ASes hold the keys,
+    the hop fields are within their lifetime, the crossover link types are among the valid
+    three), every clock and every MAC function.  The packet that arrives is described exactly
+    ([fin]: same hop fields, every segment's SegID = the value its last hop was verified with).
+    PARTIAL with respect to the property sentence: uses through a PEER entry (peering hops)
+    are not covered by this theorem; for them the chain invariant above is proved, and the
+    reference router is evaluated on every offered peering path by the correspondence run
+    (witness [Findings.sdk_rejects_peering_refuted]). *)
+Theorem combined_path_delivers_partial :
+  forall (key : Type) (mac : key -> N -> N -> N -> N -> N -> N) (t : topology key) (now dst : N)
+         (b : buse) (bs : list buse) (pk : packet),
+    Forall (fun b => (S (bu_k b) < length (bu_us b))%nat) (b :: bs) ->
+    assemble dst (map (use_of mac) (b :: bs)) = Some pk ->
+    exists d r, g_hops (tseg_of mac b) = d :: r /\
+      (route_topo t now (tseg_of mac b) d r (map (tseg_of mac) bs) dst ->
+       delivers mac t now (length r + S (fuel_rest (map (tseg_of mac) bs))) (d_ia d) 0 pk dst
+         (fin (all_hops (tseg_of mac b) (map (tseg_of mac) bs))
+              (glen (tseg_of mac b) :: map glen (map (tseg_of mac) bs))
+              (final_infos [] (tseg_of mac b) d r (map (tseg_of mac) bs)) dst)).
+Proof. intros. apply combined_delivers; assumption. Qed.
+Print Assumptions combined_path_delivers_partial.
+
+(** The reply: reverse the arrived packet ([fin]) at its position ([try_reverse]); the result
+    is the packet of the reversed path description, which is again authentic hop by hop (the
+    SegIDs a traversal leaves behind are the initial values for the opposite direction, the
+    chain relations flip by xor-involution), so the reference router delivers it to the sender
+    wherever the topology carries the way back.  Any path description with authentic
+    MAC-chained segments of at least two hops, in particular (previous theorem) the assembled
+    ones.  PARTIAL: no peering hops, as above. *)
+Theorem reverse_delivers_partial :
+  forall (key : Type) (mac : key -> N -> N -> N -> N -> N -> N) (t : topology key) (now : N)
+         (g : tseg) (rest : list tseg) d r src dst pk',
+    g_hops g = d :: r -> segs_two (g :: rest) ->
+    route_auth mac g d r rest ->
+    fin (all_hops g rest) (glen g :: map glen rest) (final_infos [] g d r rest) dst pk' ->
+    exists g2 rest2 d2 r2,
+      rev (map rev_seg (g :: rest)) = g2 :: rest2 /\ g_hops g2 = d2 :: r2
+      /\ (route_topo t now g2 d2 r2 rest2 src ->
+          delivers mac t now (length r2 + S (fuel_rest rest2)) (d_ia d2) 0
+                   (mkPkt src (path_reverse (k_path pk'))) src
+                   (fin (all_hops g2 rest2) (glen g2 :: map glen rest2) (final_infos [] g2 d2 r2 rest2) src)).
+Proof. intros. eapply reverse_delivers_desc; eassumption. Qed.
+Print Assumptions reverse_delivers_partial.
+
+(** the assembled paths are such descriptions (links the two theorems) *)
+Theorem assembled_paths_are_authentic :
+  forall (key : Type) (mac : key -> N -> N -> N -> N -> N -> N) (bs : list buse) (b : buse),
+    Forall (fun b => (S (bu_k b) < length (bu_us b))%nat) (b :: bs) ->
+    match g_hops (tseg_of mac b) with
+    | d :: r => route_auth mac (tseg_of mac b) d r (map (tseg_of mac) bs)
+    | [] => False
+    end.
+Proof. intros. apply route_auth_of; assumption. Qed.
+Print Assumptions assembled_paths_are_authentic.
